@@ -384,7 +384,7 @@ def witnesses(ctx):
     """the Lean witnesses of the unsound key kinds, replayed on the implementation as fixed two-step
     histories (pool object vs fresh object)"""
     for grp in (_w_legendre, _w_global, _w_hash, _w_solvers, _w_twins, _w_constructors, _w_shared_mapping,
-                _w_repeat):
+                _w_repeat, _w_finder_ties, _w_matrix_rhs):
         try:
             grp(ctx)
         except Exception as ex:
@@ -711,6 +711,64 @@ def _w_repeat(ctx):
         for rep in range(2):
             _check(ctx, f"{name}: repetition {rep + 2} in the same process", "repeat",
                    lambda: c15pool.mesh_value(fn()), lambda: first, {"expression": name})
+
+
+def _w_matrix_rhs(ctx):
+    """enforce / condense / penalize with a sparse matrix as second operand (eigenproblems): both matrices keep
+    their stored arrays bit for bit"""
+    import skfem
+    from skfem import Basis, condense, enforce, penalize
+    from .. import c15ops
+    b = Basis(skfem.MeshTri1().refined(2), skfem.ElementTriP1())
+    K = c15ops.make_form("spd").assemble(b)
+    Mm = c15ops.make_form("m").assemble(b)
+    D = b.get_dofs().all()
+
+    def arrays():
+        return {"K.data": K.data.copy(), "K.indices": K.indices.copy(), "M.data": Mm.data.copy(),
+                "M.indices": Mm.indices.copy(), "M.indptr": Mm.indptr.copy()}
+    before = arrays()
+    for name, fn in (("enforce(K, M, D=D)", lambda: enforce(K, Mm, D=D)), ("condense(K, M, D=D)", lambda: condense(K, Mm, D=D)),
+                     ("penalize(K, M, D=D)", lambda: penalize(K, Mm, D=D))):
+        def run_():
+            fn()
+            return arrays()
+        _check(ctx, f"{name}: stored arrays of both matrices afterwards", "matrix-rhs-operands", run_, lambda: before,
+               {"call": name, "mesh": "MeshTri().refined(2)", "element": "ElementTriP1"})
+
+
+def _w_finder_ties(ctx):
+    """points on shared facets / vertices: the cell the finder returns does not depend on earlier queries"""
+    import skfem
+    for mk, name in ((lambda: skfem.MeshTri1().refined(2), "MeshTri().refined(2)"),
+                     (lambda: skfem.MeshQuad1().refined(2), "MeshQuad().refined(2)"),
+                     (lambda: skfem.MeshTet1().refined(1), "MeshTet().refined(1)"),
+                     (lambda: skfem.MeshLine1().refined(3), "MeshLine().refined(3)")):
+        m = mk()
+        nv = m.elem.refdom.nnodes
+        rng = random.Random(f"C15ties:{ctx.seed}:{name}")
+        for rep in range(4):
+            warm = [rng.randrange(m.nelements) for _ in range(3)]
+            cells = [rng.randrange(m.nelements) for _ in range(4)]
+            def centre(mm, c):
+                return mm.p[:, mm.t[:nv, c]].mean(axis=1)
+            def tie_points(mm):
+                out = []
+                for c in cells:
+                    vs = mm.p[:, mm.t[:nv, c]]
+                    out += [vs[:, 0], (vs[:, 0] + vs[:, 1]) / 2]
+                return np.array(out).T
+            for c in warm:                    # earlier queries on the pool mesh
+                m.element_finder()(*centre(m, c)[:, None])
+
+            def asked():
+                return m.element_finder()(*tie_points(m))
+
+            def fresh():
+                mf = mk()
+                return mf.element_finder()(*tie_points(mf))
+            _check(ctx, f"{name}: cells returned for points on shared facets / vertices after other queries",
+                   "finder-ties", asked, fresh, {"mesh": name, "earlier_queries_in_cells": warm, "cells": cells})
 
 
 def _w_solvers(ctx):
